@@ -729,6 +729,9 @@ def eff_sub(case):
     return rect, mode, s_eff, (mode == 2 and not rect)
 
 
+UNDECIDED = 'undecided-bbox-edge-tie'
+
+
 def shape_coq(sh):
     return Raw('(' + sh[0] + ' ' + ' '.join(coq(q(v)) for v in sh[1]) + ')')
 
@@ -737,6 +740,13 @@ def mask_case_coq(case, aper, data, bb):
     ex, ey = (float(v) for v in aper._xy_extents)
     rect, mode, s_eff, use_exact = eff_sub(case)
     exact_arith = case['exact_arith'] and s_eff in POW2
+    if not case['exact_arith']:
+        # arbitrary doubles: position +- extent within 1e-9 of a pixel edge is decided by the rounding of the float
+        # additions in _bbox / from_float, not by the exact model (IEEE gap): not compared
+        sc = max(1.0, abs(case['px']), abs(case['py']), ex, ey)
+        if any(abs(v + 0.5 - round(v + 0.5)) < 1e-9 * sc
+               for v in (case['px'] - ex, case['px'] + ex, case['py'] - ey, case['py'] + ey)):
+            return UNDECIDED
     counts = None
     if not use_exact:
         cnt = counts_from_weights(data, s_eff)
@@ -1023,7 +1033,9 @@ def run(ctx):
                 ctx.violation(f'to_mask:{case["fam"]}:center-is-subpixel-1', "'center' differs from subpixels=1",
                               mask_rep(case, 'compiled'))
         t = mask_case_coq(case, aper, m.data, bb)
-        if t is None:
+        if t is UNDECIDED:
+            ctx.stat('excluded', 'model-comparison-skipped:bbox-edge-tie-in-floats')
+        elif t is None:
             ctx.violation(f'to_mask:{case["fam"]}:weights-not-k-over-s2', 'a center/subpixel weight is not a '
                           'multiple of 1/subpixels^2', mask_rep(case, 'compiled'))
         else:
@@ -1048,7 +1060,9 @@ def run(ctx):
                 v = direct_checks(ctx, case, aper, td, bb, 'pyx-text')
                 report([(s_.replace('to_mask:', 'pyx-text:'), w_, r_) for s_, w_, r_ in v])
                 tt = mask_case_coq(case, aper, td, bb)
-                if tt is None:
+                if tt is UNDECIDED:
+                    pass
+                elif tt is None:
                     ctx.violation(f'pyx-text:{case["fam"]}:weights-not-k-over-s2', 'a center/subpixel weight of '
                                   'the kernel text is not a multiple of 1/subpixels^2',
                                   mask_rep(case, 'pyx-text'))
@@ -1158,7 +1172,7 @@ def run(ctx):
                         for s_, w_, r_ in direct_checks(ctx, hc, aper, m.data, bb, 'compiled')])
                 if m.data.size * eff_sub(hc)[2] ** 2 <= 3000:
                     t = mask_case_coq(hc, aper, m.data, bb)
-                    if t is not None:
+                    if t is not None and t is not UNDECIDED:
                         coq_cases.append(t)
                         descr.append((hc, 'compiled'))
         except Exception as e:   # noqa: BLE001
